@@ -7,6 +7,6 @@ mkdir -p work .cache evidence replays
 python3 translate/avt2coq.py /repo/src coq/Gen || { echo "translator failed on the current tree; using pinned tables"; cp coq/GenPinned/*.v coq/Gen/; }
 (cd coq && coq_makefile -f _CoqProject -o Makefile >/dev/null && timeout 3400 make -j16 2>&1 | tail -5)
 cp coq/model.ml coq/model.mli driver/
-(cd driver && ocamlfind ocamlopt -O2 -w -a model.mli model.ml conv.ml oracles_glue.ml main.ml -o avt-driver)
+(cd driver && ocamlfind ocamlopt -package unix -linkpkg -O2 -w -a model.mli model.ml conv.ml oracles_glue.ml main.ml -o avt-driver)
 (cd harness && cargo build --release --offline 2>&1 | tail -2)
 echo "setup done"
